@@ -54,7 +54,7 @@ class Ctx:
         self.workload = workload
         self.rng = np.random.default_rng([seed, shard, 7919])
         self.t0 = time.time()
-        self.soft_limit = float(os.environ.get("VERIF_SOFT_LIMIT", 30 if tier == "quick" else 150))
+        self.soft_limit = float(os.environ.get("VERIF_SOFT_LIMIT", 150 if tier == "quick" else 400))
         self.scale = float(os.environ.get("VERIF_SCALE", 1.0))
 
     def n(self, quick: int, thorough: int | None = None) -> int:
